@@ -105,8 +105,9 @@ def run(ctx):
     ctx.assumptions += [
         "murmur3 is an uninterpreted injective function: the harness applies github.com/spaolacci/murmur3 (New64WithSeed(mash.Seed)) "
         "to every k-substring of both strands; 64-bit values are projected to their rank within the session",
-        "ln: the closed form is checked in 10^-8 fixed point against MashLnTable (sketch sizes / denominators <= 32, tolerance 1 unit); "
-        "outside that grid Distance / FromJaccard are checked for range, symmetry, zero on identical content and monotonicity only",
+        "ln: the closed form is checked in 10^-8 fixed point against MashLnTable (sketch sizes / denominators <= 32 and j = 2^-p, p <= 14; tolerance 1 unit); "
+        "outside that grid Distance / FromJaccard are checked for range, symmetry, zero on identical content, monotonicity and for lying "
+        "between the table values at the two neighbouring table points (fractions with denominator 32, powers of two below 1/32; the closed form is decreasing in j)",
         "sequences over ACGT/acgt; Distance is judged only for two full sketches of equal size (the property's domain)",
     ]
     check_table(ctx)
